@@ -42,8 +42,9 @@ def _apps(fs):
     return out
 
 
-def _mods(fs):
-    """(x, t) for every x % pow2(t) occurring in fs"""
+def _mods(fs, kind=None):
+    """(x, t) for every x % pow2(t) (or x / pow2(t) with kind=Z3_OP_IDIV) occurring in fs"""
+    kind = z3.Z3_OP_MOD if kind is None else kind
     seen, out, keys = set(), [], set()
     stack = list(fs)
     while stack:
@@ -52,7 +53,7 @@ def _mods(fs):
             continue
         seen.add(e.get_id())
         if z3.is_app(e):
-            if e.decl().kind() == z3.Z3_OP_MOD:
+            if e.decl().kind() == kind:
                 x, p = e.arg(0), e.arg(1)
                 if z3.is_app(p) and p.decl().name() == 'pow2':
                     k = (x.get_id(), p.arg(0).get_id())
@@ -149,6 +150,19 @@ def ground_axioms(formulas, depth=1):
                 c = byid.get(z3.simplify(a + b, sort_sums=True).sexpr())
                 if c is not None and c.get_id() not in (a.get_id(), b.get_id()):
                     ax.append(z3.Implies(z3.And(a >= 0, b >= 0), pow2(c) == pow2(a) * pow2(b)))
+    # x / pow2(k) with 0 <= x < pow2(a), 0 <= k <= a:  x / pow2(k) < pow2(a - k)
+    divs = _mods(formulas, kind=z3.Z3_OP_IDIV)
+    if len(divs) * len(orig) <= 300 and len(orig) <= 24:
+        byid2 = {}
+        for t in orig:
+            byid2.setdefault(z3.simplify(t, sort_sums=True).sexpr(), t)
+        for (x, k) in divs:
+            ax.append(z3.Implies(z3.And(x >= 0, k >= 0), x / pow2(k) >= 0))
+            ax.append(z3.Implies(z3.And(x >= 0, k >= 0), x == pow2(k) * (x / pow2(k)) + x % pow2(k)))
+            for c in orig:
+                a = byid2.get(z3.simplify(c + k, sort_sums=True).sexpr())
+                if a is not None:
+                    ax.append(z3.Implies(z3.And(x >= 0, x < pow2(a), k >= 0, c >= 0), x / pow2(k) < pow2(c)))
     # x % pow2(t): range, and identity on [0, pow2(t))
     for (x, t) in _mods(formulas):
         ax.append(z3.And(x % pow2(t) >= 0, x % pow2(t) < pow2(t)))
